@@ -42,12 +42,14 @@ type genSpec struct {
 	K int `json:"k"`
 }
 type behaviour struct {
-	Ty    string    `json:"ty"`
-	Gen   *genSpec  `json:"gen"`
-	Seed  *int64    `json:"seed"` // seed the object was generated with (defaults to the run's seed)
-	Rnd   int       `json:"rnd"`  // number of driver-side random mutations of the object's encoding
-	Cases []kase    `json:"cases"`
-	Big   []bigDesc `json:"big"` // large inputs as descriptors (big.go)
+	Ty    string       `json:"ty"`
+	Gen   *genSpec     `json:"gen"`
+	Seed  *int64       `json:"seed"` // seed the object was generated with (defaults to the run's seed)
+	Rnd   int          `json:"rnd"`  // number of driver-side random mutations of the object's encoding
+	Cases []kase       `json:"cases"`
+	Big   []bigDesc    `json:"big"` // large inputs as descriptors (big.go)
+	Enc   []encBigSpec `json:"enc"` // encode side at the header-class boundaries (encbig.go)
+	Seq   *seqSpec     `json:"seq"` // a stateful sequence on a mutable container (seq.go)
 }
 
 func ints(b []byte) []int {
@@ -261,6 +263,17 @@ func genericAccepts(b []byte) (ok bool, pan string) {
 func runBehaviour(env *drive.Env, w *world, beh *behaviour) {
 	for i := range beh.Big {
 		runBig(env, &beh.Big[i])
+	}
+	for i := range beh.Enc {
+		sd := env.Seed
+		if beh.Seed != nil {
+			sd = *beh.Seed
+		}
+		runEncBig(env, sd, &beh.Enc[i])
+	}
+	if beh.Seq != nil {
+		runSeq(env, beh.Seq)
+		return
 	}
 	if beh.Ty == "generic" {
 		for _, k := range beh.Cases {
